@@ -17,3 +17,7 @@ CHECKS["C13"] = dict(
     text="Keyword semantics: [max()], [min()], [unique()], [distinct()], [has_child()], [parent(n)], [name()] are evaluated through the real Processor on lists (n<=4, optional null), Arrays-of-Hashes and hashes-of-hashes whose members have/lack the attribute (all presence patterns), with symbolic integer leaves, and compared as multisets of positions with a definitional model (extreme value incl. ties, occurrence counts, first-of-group, key presence, n-th ancestor identity, refusal above the root).",
     note="Leaves in [-9,9] for max/min (all orderings/ties of <=4 members realisable), [-1,1] for unique/distinct because the implementation hashes them; text/float members and null attribute values are outside.")
 del NA["C13"]
+CHECKS["C01"] = dict(
+    text="Query semantics vs a reference evaluator: for each (document shape, path template) shard the real parser + Processor.get_nodes(mustexist=True) run symbolically on path text with symbolic indexes/bounds/terms and documents with symbolic integer leaves; the result sequence must equal the README-derived model's coordinates (parent identity, key/index, order, nothing extra or missing), in dot and slash notation, and exists() / optional-match must agree. The model is validated at every run against the (document, path, values) triples of tests/test_processor.py.",
+    note="Only combinations the README defines are asserted (the model raises Undefined otherwise - listed in evidence.outside_claim). Templates: harness/c01.py (47); shapes: vf/docs.py; quick = 30 pairs, thorough = applicability product (~400 queries).")
+del NA["C01"]
